@@ -14,6 +14,7 @@ import (
 	"strconv"
 	"strings"
 	"sync"
+	"sync/atomic"
 
 	"github.com/dchest/siphash"
 
@@ -28,6 +29,7 @@ import (
 type ccase struct {
 	Op     string `json:"op"` // sip | drbg | table | sample | intn | intrange | float64 | rangecover
 	Seed   string `json:"seed,omitempty"`
+	Seed2  string `json:"seed2,omitempty"` // concurrent: the second (tiny-table) seed
 	Min    int64  `json:"min,omitempty"`
 	Max    int64  `json:"max,omitempty"`
 	Biased bool   `json:"biased,omitempty"`
@@ -38,7 +40,7 @@ type ccase struct {
 }
 
 func (c ccase) key() string {
-	return fmt.Sprintf("%s|%s|%d|%d|%v|%d|%s|%s|%s", c.Op, c.Seed, c.Min, c.Max, c.Biased, c.N, c.Tape, c.Key, c.Msg)
+	return fmt.Sprintf("%s|%s%s|%d|%d|%v|%d|%s|%s|%s", c.Op, c.Seed, c.Seed2, c.Min, c.Max, c.Biased, c.N, c.Tape, c.Key, c.Msg)
 }
 
 var tape *vlib.RandTape
@@ -631,6 +633,104 @@ func checkFloat64(r *vlib.Run, d *vlib.Driver, c ccase) {
 	}
 }
 
+// checkConcurrent: one goroutine alternates Reset between a large-table and a tiny-table seed
+// while 4 goroutines Sample(): nothing may panic and every sample must lie in one of the two
+// tables (hence within the bounds). Truly concurrent, so only the implementation oracle judges.
+func checkConcurrent(r *vlib.Run, c ccase) {
+	big, small := mustSeed(c.Seed), mustSeed(c.Seed2)
+	w, pn := safeNew(big, c.Min, c.Max, c.Biased)
+	ws, pn2 := safeNew(small, c.Min, c.Max, c.Biased)
+	r.Case(c.key(), true)
+	r.Count("concurrent-reset-sample", fmt.Sprintf("%d..%d", c.Min, c.Max))
+	if pn != "" || pn2 != "" {
+		r.Violate("new-panics", "impl-oracle", "probdist.New panicked: "+pn+pn2, c)
+		return
+	}
+	tb, tsm := getTables(w), getTables(ws)
+	allowed := map[int]bool{}
+	for _, v := range tb.values {
+		allowed[int(c.Min)+v] = true
+	}
+	for _, v := range tsm.values {
+		allowed[int(c.Min)+v] = true
+	}
+	tapeMu.Lock()
+	defer tapeMu.Unlock()
+	var stop int32
+	var mu sync.Mutex
+	var panics, bad []string
+	samples := 0
+	var wg sync.WaitGroup
+	for g := 0; g < 4; g++ {
+		wg.Add(1)
+		go func() {
+			defer wg.Done()
+			n := 0
+			for atomic.LoadInt32(&stop) == 0 {
+				var v int
+				pan := protect(func() { v = w.Sample() })
+				n++
+				if pan != "" || !allowed[v] {
+					mu.Lock()
+					if pan != "" {
+						panics = append(panics, pan)
+					} else {
+						bad = append(bad, strconv.Itoa(v))
+					}
+					mu.Unlock()
+					if pan != "" {
+						break
+					}
+				}
+			}
+			mu.Lock()
+			samples += n
+			mu.Unlock()
+		}()
+	}
+	var resetPanic string
+	for i := int64(0); i < c.N && resetPanic == ""; i++ {
+		resetPanic = protect(func() {
+			w.Reset(small)
+			w.Reset(big)
+		})
+		mu.Lock()
+		failed := len(panics) > 0
+		mu.Unlock()
+		if failed {
+			break
+		}
+	}
+	atomic.StoreInt32(&stop, 1)
+	wg.Wait()
+	tape.Reset()
+	r.Validated(1)
+	r.Notes["concurrent_samples_drawn"] = samples
+	switch {
+	case len(panics) > 0:
+		r.Violate("sample-panics-under-concurrent-reset", "impl-oracle",
+			fmt.Sprintf("bounds %d..%d: Sample() while another goroutine alternates Reset between seed %s (%d values) and %s (%d values): panic: %s", c.Min, c.Max, c.Seed, len(tb.values), c.Seed2, len(tsm.values), panics[0]), c)
+	case resetPanic != "":
+		r.Violate("reset-panics-under-concurrent-sample", "impl-oracle", "Reset panicked: "+resetPanic, c)
+	case len(bad) > 0:
+		r.Violate("sample-outside-both-tables-under-concurrent-reset", "impl-oracle",
+			fmt.Sprintf("bounds %d..%d seeds %s / %s: Sample() returned %s, which is in neither table", c.Min, c.Max, c.Seed, c.Seed2, clip(strings.Join(bad, ","), 80)), c)
+	}
+}
+
+// findTableSeed draws seeds until the table for the bounds has between lo and hi values.
+func findTableSeed(rng *vlib.Rng, min, max int64, lo, hi int) string {
+	for i := 0; i < 20000; i++ {
+		h := hex.EncodeToString(rng.Bytes(24))
+		if w, pn := safeNew(mustSeed(h), min, max, false); pn == "" {
+			if n := len(getTables(w).values); n >= lo && n <= hi {
+				return h
+			}
+		}
+	}
+	return ""
+}
+
 func runCase(r *vlib.Run, d *vlib.Driver, c ccase) {
 	defer func() {
 		if p := recover(); p != nil {
@@ -646,6 +746,8 @@ func runCase(r *vlib.Run, d *vlib.Driver, c ccase) {
 		checkTable(r, d, c)
 	case "sample":
 		checkSample(r, d, c)
+	case "concurrent":
+		checkConcurrent(r, c)
 	case "intn":
 		checkIntn(r, d, c)
 	case "intrange":
@@ -870,6 +972,19 @@ func main() {
 	for i, n := 0, r.Scale(60, 400); i < n; i++ {
 		mn := int64(hrng.Range(-20, 20))
 		runCase(r, d, ccase{Op: "rangecover", Min: mn, Max: mn + int64(hrng.Intn(40))})
+	}
+	// --- Reset vs Sample, truly concurrent (small fixed counts; many more when searching)
+	qrng := rng.Fork()
+	resets := int64(r.Scale(300, 3000))
+	if r.Mode == "search" {
+		resets = 20000
+	}
+	for i, b := range [][2]int64{{0, 1448}, {0, 100}, {21, 1448}} {
+		big, small := findTableSeed(qrng, b[0], b[1], 80, 100), findTableSeed(qrng, b[0], b[1], 1, 2)
+		if big == "" || small == "" {
+			continue
+		}
+		runCase(r, d, ccase{Op: "concurrent", Seed: big, Seed2: small, Min: b[0], Max: b[1], Biased: i%2 == 1, N: resets})
 	}
 	r.Finish()
 }
